@@ -103,6 +103,12 @@ Case decode(Choices& c, bool promoRace, int maxSteps) {
         } else if (src < 5) k.fen = gen::seedFens()[0];
         else k.fen = c.of(gen::seedFens());
     }
+    // long reversible stretches: one start in eight begins with a half-move clock of 100..260 (the FEN reader
+    // accepts it, and 128+ reversible plies are legal play without a draw claim) and prefers quiet moves
+    if (!promoRace && c.chance(1, 8)) {
+        ref::Pos hp; ref::fromFEN(k.fen, hp); hp.hmc = c.range(100, 260); hp.ep = -1; k.fen = ref::toFEN(hp);
+        profile = c.flip() ? gen::QUIET : gen::SHUFFLE;
+    }
     Model md;
     ref::fromFEN(k.fen, md.p);
     ref::normalizeEp(md.p);
@@ -500,6 +506,7 @@ struct Runner {
         if (f.transp) st.clsSample("transposition hit", mk);
         if (f.null) st.cls("null-move edit");
         if (f.promo) st.cls("promotion");
+        { ref::Pos sp; if (ref::fromFEN(k.fen, sp) && sp.hmc >= 100) st.clsSample("start with half-move clock >= 100", mk); }
         bool nt = f.ep || f.castle || f.capPromo || f.rookHome || f.takeBackAcross || f.sixQueens || f.transp;
         if (nt) st.nt(vj::dump(caseJson(k))); else st.cls("plain");
         st.count("steps:total", (long)k.ops.size());
